@@ -16,6 +16,12 @@ type C14Case struct {
 	Names []Str  `json:"allowed_names"` // as configured (any case, any order, duplicates)
 	Lines []Val  `json:"acrh_lines"`
 	Note  string `json:"note,omitempty"`
+	// Around: what surrounds the header list and has no say in whether it is approved - the other switches of the
+	// configuration and the other features of the preflight (0 = the plain case). Bits: 1 credentialed, 2 PNA,
+	// 4 PNA in no-cors mode only (2 and 4 never together), 8 debug-independent extras in the configuration (methods,
+	// exposed headers, max-age, status 200), 16 the request says ACRPN: true, 32 ACRPN: false, 64 the requested method
+	// is PUT (listed when bit 8 is set), 128 the request carries unrelated headers and a body.
+	Around int `json:"around,omitempty"`
 }
 
 func isOWSb(b byte) bool { return b == ' ' || b == '\t' }
@@ -140,6 +146,9 @@ func c14Gen(t *rapid.T) C14Case {
 		for i, m := 0, pick(t, "nmany", []int{30, 33, 62, 64, 66, 100, 126, 130, 256}); i < m; i++ {
 			c.Names = append(c.Names, Str(fmt.Sprintf("w-%03d", (i*41)%m)))
 		}
+	}
+	if chance(t, "around", 30) {
+		c.Around = uniform(t, "aroundbits", 256)
 	}
 	allowed := normNames(c.Names)
 	maxLen := 0
@@ -285,6 +294,38 @@ func c14Gen(t *rapid.T) C14Case {
 
 func c14Check(c C14Case, rec *Recorder) *Disc {
 	cfg := Cfg{Origins: SS("https://example.com"), RequestHeaders: c.Names}
+	a := c.Around
+	if a&2 != 0 && a&4 != 0 {
+		a &^= 4
+	}
+	cfg.Credentialed, cfg.PNA, cfg.PNANoCORS = a&1 != 0, a&2 != 0, a&4 != 0
+	if a&8 != 0 {
+		cfg.Methods, cfg.ResponseHeaders, cfg.MaxAge, cfg.Status = SS("PUT", "PATCH"), SS("X-Exposed"), 600, 200
+	}
+	okStatus := 204
+	if cfg.Status != 0 {
+		okStatus = cfg.Status
+	}
+	method := "GET"
+	if a&64 != 0 && a&8 != 0 {
+		method = "PUT"
+	}
+	// the steps before the header list: a private-network request is granted only under a PNA mode
+	stepsBeforeOK := a&16 == 0 || cfg.PNA || cfg.PNANoCORS
+	extra := func(hs []HV) []HV {
+		if a&16 != 0 {
+			hs = append(hs, HV{hACRPN, Vals("true")})
+		} else if a&32 != 0 {
+			hs = append(hs, HV{hACRPN, Vals("false")})
+		}
+		if a&128 != 0 {
+			hs = append(hs, HV{"User-Agent", Vals("x")}, HV{"Sec-Fetch-Mode", Vals("cors")}, HV{"Accept", Vals("*/*")})
+		}
+		return hs
+	}
+	if a != 0 {
+		rec.Class("with-surroundings")
+	}
 	m, err := cors.NewMiddleware(cfg.Cors())
 	if err != nil {
 		rec.Class("rejected-config")
@@ -292,24 +333,27 @@ func c14Check(c C14Case, rec *Recorder) *Disc {
 	}
 	allowed := normNames(c.Names)
 	lines := Strs(c.Lines)
-	req := Req{Method: "OPTIONS", Hdr: []HV{{hOrigin, Vals("https://example.com")}, {hACRM, Vals("GET")}, {hACRH, c.Lines}}}
+	req := Req{Method: "OPTIONS"}
+	if a&128 != 0 {
+		req.Body = 17
+	}
 	wrap := oneWrap(m.Wrap)
 	// judge serves one preflight carrying the given field lines and compares with the reference reader
 	judge := func(ls []Val, when string) (bool, *Disc) {
 		lines := Strs(ls)
 		r := req
-		r.Hdr = []HV{{hOrigin, Vals("https://example.com")}, {hACRM, Vals("GET")}, {hACRH, ls}}
+		r.Hdr = extra([]HV{{hOrigin, Vals("https://example.com")}, {hACRM, Vals(method)}, {hACRH, ls}})
 		resp := Do(wrap, r, nil)
 		rec.Eval(1)
 		var got bool
 		switch {
-		case resp.Status == 204 && eq1(resp.Hdr[hACAO], "https://example.com"):
+		case resp.Status == okStatus && eq1(resp.Hdr[hACAO], "https://example.com"):
 			got = true
 		case len(resp.Hdr[hACAO]) == 0 && (resp.Status < 200 || resp.Status > 299): // refused; the status of a refusal is not documented
 		default:
 			return false, discf("allowed %q lines %q (%s): odd preflight response %s", allowed, lines, when, abbrev(resp.Sig(), 300))
 		}
-		want := acrhApproved(allowed, lines)
+		want := acrhApproved(allowed, lines) && stepsBeforeOK
 		if got != want {
 			return false, discf("allowed names %q, ACRH field lines %q (%s): reference reader says approved=%v, middleware says %v (%s)", allowed, lines, when, want, got, c.Note)
 		}
@@ -372,7 +416,7 @@ func c14Check(c C14Case, rec *Recorder) *Disc {
 		for _, variant := range [][]string{{strings.Join(sub, ",")}, sub, {strings.Join(sub, ", ")}} {
 			r := Do(wrap, Preflight("https://example.com", "GET", variant...), nil)
 			rec.Eval(1)
-			if r.Status != 204 || !sameTokens(r.Hdr[hACAH], variant) {
+			if r.Status != okStatus || !sameTokens(r.Hdr[hACAH], variant) {
 				return discf("allowed %q: browser-shaped list %q is not approved (status %d, ACAH %q)", allowed, variant, r.Status, r.Hdr[hACAH])
 			}
 		}
@@ -385,7 +429,7 @@ func c14Prop() Prop[C14Case] {
 		Rule: "generator: allowed-name sets of 1-40 names (5%: 30-300 names) (prefixes/extensions of each other, mixed case in the configuration) x 0-4 ACRH field lines: 55% an increasing walk over the allowed names with <=1 OWS per side and <=14 empty elements, " +
 			"of which 45% get exactly one boundary mutation (17th / 16th empty element, 2 OWS on one side, 3-byte whitespace element, duplicate, swapped neighbours, element one byte over the longest name, upper case, one arbitrary byte 0x00-0xFF glued to an edge of an element, one letter replaced by Kelvin sign / dotted I / long s); 45% free-form elements " +
 			"(allowed names unsorted/repeated, prefix/extension/upper-case variants, runs of 0-20 empties, elements of length maxNameLen-1..+4 of name bytes or OWS, junk over {a b x - , SP HTAB NUL}) each with 0-3 OWS per side. " +
-			"Oracle: debug-off preflight approved (204 + ACAH echo) iff the reference list reader approves - for each field line served alone first, then for all lines together, twice, all through one wrapped handler (the reader has no memory); browser-shaped sublists (joined, one per line, comma-space) always approved. " +
+			"30% of the cases put the list into surroundings that have no say in its approval: credentialed / PNA / no-cors-only PNA configurations, methods, exposed headers, max-age and status 200, a request that says ACRPN true or false, asks for PUT, carries unrelated headers and a body. Oracle: debug-off preflight approved (success status + ACAH echo) iff the reference list reader approves (and the steps before the header list let the request through) - for each field line served alone first, then for all lines together, twice, all through one wrapped handler (the reader has no memory); browser-shaped sublists (joined, one per line, comma-space) always approved. " +
 			"non-trivial = approved with >=2 names / padding / several lines / empties, or rejected solely because of one planted boundary mutation; distinct by (allowed set, lines).",
 		Assumptions: []string{"checked through the public API: a debug-off preflight from an allowed origin with a safelisted method is approved iff it is answered 204 with ACAO, refused iff it carries no ACAO and a non-2xx status"}}
 }
